@@ -5,9 +5,9 @@ import Enc.Lemmas.ProtoLiberalConv
 
 Universe `tyOK (.struct fs)` as in `ProtoLiberalMain`.
 
-  * `decode_of_unmarshal`   `unmarshal … b = .ok v  →  ZeroNum fs b ∨ Spec.decode … b = some v`
+  * `decode_of_unmarshal`   `unmarshalU … b = .ok v  →  ZeroNum fs b ∨ Spec.decode … b = some v`
   * `zeroNum_rejected`      `ZeroNum fs b → Spec.decode … b = none`           (no hypothesis on the type)
-  * `unmarshal_iff_decode`  outside `ZeroNum`: `unmarshal … b = .ok v ↔ Spec.decode … b = some v`
+  * `unmarshal_iff_decode`  outside `ZeroNum`: `unmarshalU … b = .ok v ↔ Spec.decode … b = some v`
                             (same accepted inputs, literally the same values; so on such inputs a rejection by one side —
                             overflowing varint for a 32-bit field, wire-type mismatch, wire types 3/4/6/7, truncation,
                             over-long varint, packed encoding of a repeated scalar — is a rejection by the other side)
@@ -86,10 +86,10 @@ theorem zeroNum_rejected (fs : Fields) (b : Bytes) (h : ZeroNum fs b) : Spec.Pro
 /-- **converse of the main theorem**: whatever `Unmarshal` accepts, the reference accepts with the same value — unless
 a record with field number 0 is reached -/
 theorem decode_of_unmarshal (fs : Fields) (hty : tyOK (.struct fs) = true) (b : Bytes) (v : Val)
-    (h : unmarshal (.struct fs) b = .ok v) : ZeroNum fs b ∨ Spec.Protobuf.decode (.struct fs) b = some v := by
+    (h : unmarshalU (.struct fs) b = .ok v) : ZeroNum fs b ∨ Spec.Protobuf.decode (.struct fs) b = some v := by
   have hty' := hty
   simp only [tyOK, Bool.and_eq_true, decide_eq_true_eq] at hty'
-  unfold unmarshal at h
+  unfold unmarshalU at h
   by_cases hb : b = []
   · subst hb
     simp only [List.isEmpty_nil, if_true, Res.ok.injEq] at h
@@ -101,10 +101,10 @@ theorem decode_of_unmarshal (fs : Fields) (hty : tyOK (.struct fs) = true) (b : 
     simp only [hbe, Bool.false_eq_true, if_false, codecOf, zeroOf] at h
     generalize 2 * b.length + 8 + Codec.height (Codec.struct (fieldsOf 1 fs)) = FUEL at h
     cases FUEL with
-    | zero => simp [decode] at h
+    | zero => simp [decodeU] at h
     | succ f =>
       rw [decode_struct_succ] at h
-      cases hds : decodeStruct f (fieldsOf 1 fs) b b.length (zeroFields fs)
+      cases hds : decodeStructU f (fieldsOf 1 fs) b b.length (zeroFields fs)
           { ({ toplevel := true } : Flags) with toplevel := false } 0 with
       | err e => simp [hds, Res.bind] at h
       | panic e => simp [hds, Res.bind] at h
@@ -123,17 +123,17 @@ theorem decode_of_unmarshal (fs : Fields) (hty : tyOK (.struct fs) = true) (b : 
 
 /-- **the two decoders coincide outside `ZeroNum`**: same accepted inputs, literally the same values -/
 theorem unmarshal_iff_decode (fs : Fields) (hty : tyOK (.struct fs) = true) (b : Bytes) (v : Val)
-    (hz : ¬ ZeroNum fs b) : unmarshal (.struct fs) b = .ok v ↔ Spec.Protobuf.decode (.struct fs) b = some v :=
+    (hz : ¬ ZeroNum fs b) : unmarshalU (.struct fs) b = .ok v ↔ Spec.Protobuf.decode (.struct fs) b = some v :=
   ⟨fun h => (decode_of_unmarshal fs hty b v h).resolve_left hz, unmarshal_of_decode fs hty b v⟩
 
 /-- … in particular they reject the same inputs there (the Go side with one of its error classes, never a panic) -/
 theorem reject_iff (fs : Fields) (hty : tyOK (.struct fs) = true) (b : Bytes) (hz : ¬ ZeroNum fs b) :
-    (∃ e, unmarshal (.struct fs) b = .err e) ↔ Spec.Protobuf.decode (.struct fs) b = none := by
+    (∃ e, unmarshalU (.struct fs) b = .err e) ↔ Spec.Protobuf.decode (.struct fs) b = none := by
   constructor
   · rintro ⟨e, he⟩
     exact unmarshal_reject fs hty b e he
   · intro hn
-    cases hu : unmarshal (.struct fs) b with
+    cases hu : unmarshalU (.struct fs) b with
     | ok v =>
       have := (unmarshal_iff_decode fs hty b v hz).mp hu
       rw [hn] at this; cases this
@@ -146,12 +146,12 @@ theorem reject_iff (fs : Fields) (hty : tyOK (.struct fs) = true) (b : Bytes) (h
 
 /-- the decoders DISAGREE on `b`: it is not the case that they accept `b` with the same value or both reject it -/
 def Disagree (fs : Fields) (b : Bytes) : Prop :=
-  ¬ ∀ v, unmarshal (.struct fs) b = .ok v ↔ Spec.Protobuf.decode (.struct fs) b = some v
+  ¬ ∀ v, unmarshalU (.struct fs) b = .ok v ↔ Spec.Protobuf.decode (.struct fs) b = some v
 
 /-- **exact characterisation of the disagreement**: the Go decoder accepts an input in which a record with field
 number 0 is reached (it skips the record as an unknown field); the reference rejects such inputs -/
 theorem disagree_iff (fs : Fields) (hty : tyOK (.struct fs) = true) (b : Bytes) :
-    Disagree fs b ↔ (∃ v, unmarshal (.struct fs) b = .ok v) ∧ ZeroNum fs b := by
+    Disagree fs b ↔ (∃ v, unmarshalU (.struct fs) b = .ok v) ∧ ZeroNum fs b := by
   constructor
   · intro hd
     have hz : ZeroNum fs b := Classical.byContradiction fun hz => hd fun v => unmarshal_iff_decode fs hty b v hz
